@@ -18,6 +18,8 @@ import ScyllaVerif.Proofs.MergeChannel
 import ScyllaVerif.Model.MetaUpdate
 import ScyllaVerif.Model.RefreshFlow
 import ScyllaVerif.Model.ClusterConsumer
+import ScyllaVerif.Model.C19PoolInit
+import ScyllaVerif.Model.C19Whole
 
 namespace ScyllaVerif.Props.C19
 open ScyllaVerif.MergeChannel
@@ -850,6 +852,14 @@ private theorem flowInv_step (s : Flow) (e : Ev) (h : FlowInv s) : FlowInv (Refr
         have := once id
         simp only [places, refreshIds_apply_strip] at this ⊢
         exact this
+  | mergeEstab op =>
+    simp only [RefreshFlow.step]
+    split
+    · exact h0
+    · refine ⟨fun id => ?_, by simpa using idle, by simpa using nofetch⟩
+      have := once id
+      simp only [places, refreshIds_apply_strip] at this ⊢
+      exact this
   | consumerTake =>
     simp only [RefreshFlow.step]
     split
@@ -941,6 +951,7 @@ private theorem alive_step (s : Flow) (e : Ev) (he : isAlive e = true) (hi : Flo
   | fetchErrNoCc => simp only [RefreshFlow.step, hp]; split <;> simp [hc, hp, hd]
   | fetchErrOnCc => simp [RefreshFlow.step, hc, hp, hd]
   | merge op => simp [RefreshFlow.step, hc, hp, hd]
+  | mergeEstab op => simp [RefreshFlow.step, hc, hp, hd]
   | consumerTake => simp only [RefreshFlow.step, hc]; split <;> (try split) <;> simp [hc, hp, hd]
   | consumerFinish => simp only [RefreshFlow.step, hc]; split <;> simp [hc, hp, hd]
 
@@ -974,10 +985,18 @@ theorem refresh_answers_only_grow (s : Flow) (e : Ev) :
   | fetchErrNoCc => simp only [RefreshFlow.step]; split <;> simp
   | fetchErrOnCc => simp [RefreshFlow.step]
   | merge op => simp only [RefreshFlow.step, stopProducer]; split <;> (try split) <;> (try split) <;> simp
+  | mergeEstab op => simp only [RefreshFlow.step]; split <;> simp
   | consumerTake => simp only [RefreshFlow.step]; split <;> (try split) <;> simp
   | consumerFinish => simp only [RefreshFlow.step]; split <;> simp
   | consumerGone => simp only [RefreshFlow.step]; split <;> (try split) <;> simp
   | producerGone => simp only [RefreshFlow.step, stopProducer]; split <;> (try split) <;> simp
+
+-- EVALUATION: the consumer is gone and a server event arrives DURING an establishment attempt: the send error is
+-- ignored, the producer lives on, and the failing attempt still answers the pending request with the error.
+example :
+    let s := RefreshFlow.run RefreshFlow.init
+      [.request, .recvRequest, .consumerGone, .mergeEstab (.topology 3), .fetchErrNoCc]
+    s.answeredErr = [0] ∧ s.dropped = [] ∧ s.producerGone = false := by decide
 
 /-! #### possibility of progress -/
 
@@ -1028,6 +1047,7 @@ private theorem next_unchanged : ∀ (evs' : List Ev) (s : Flow), (∀ e ∈ evs
     | fetchErrNoCc => simp only [RefreshFlow.step]; split <;> rfl
     | fetchErrOnCc => rfl
     | merge op => simp only [RefreshFlow.step, stopProducer]; split <;> (try split) <;> (try split) <;> rfl
+    | mergeEstab op => simp only [RefreshFlow.step]; split <;> rfl
     | consumerTake => simp only [RefreshFlow.step]; split <;> (try split) <;> rfl
     | consumerFinish => simp only [RefreshFlow.step]; split <;> rfl
     | consumerGone => simp only [RefreshFlow.step]; split <;> (try split) <;> rfl
@@ -1409,6 +1429,22 @@ private theorem timeInv_step (t : Timed) (e : Ev) (h : TimeInv t) : TimeInv (tst
           · exact Or.inr (Or.inr (Or.inr h1))
         · simpa [refreshIds_apply_strip] using hid
     · intro p hp; simpa [tstep] using hp
+  | mergeEstab op =>
+    apply timeInv_of t _ h0
+    · simpa [tstep] using fi'
+    · simp only [tstep, RefreshFlow.step]; split <;> simp
+    · simp [tstep]
+    · simp [tstep]
+    · intro r' hr'; left
+      simp only [tstep, RefreshFlow.step] at hr' ⊢
+      split at hr' <;> simp_all
+    · intro p hp; left; simpa [tstep] using hp
+    · intro id hid; left
+      simp only [tstep, RefreshFlow.step] at hid
+      split at hid
+      · exact hid
+      · simpa [refreshIds_apply_strip] using hid
+    · intro p hp; simpa [tstep] using hp
   | consumerTake =>
     apply timeInv_of t _ h0
     · simpa [tstep] using fi'
@@ -1543,6 +1579,13 @@ example :
     let t := trun tinit [.request, .recvRequest, .request, .recvRequest, .fetchOk { peers := 1 }, .recvRequest,
       .fetchOk { peers := 2 }, .consumerTake, .consumerFinish]
     t.issued = [(0, 0), (1, 2)] ∧ t.served = [(0, 1), (1, 3)] ∧ t.flow.answeredOk = [0, 1] := by decide
+
+/-- The ∀ form: WHATEVER issue time and serving-fetch start time the ghost records hold for a request, the fetch started
+strictly after the request was made (in every reachable state, for every request - answered or not). -/
+theorem serving_fetch_started_after_request (evs : List Ev) (id tIssued tFetch : Nat) :
+    (id, tIssued) ∈ (trun tinit evs).issued → (id, tFetch) ∈ (trun tinit evs).served → tIssued < tFetch :=
+  fun hi hs => (timeInv_run evs).servedAfter (id, tFetch) hs tIssued hi
+
 
 end Refresh
 
@@ -1686,5 +1729,797 @@ example :
       s.cons.delivered = [.replace [((1, 1), 5)], .mergeUpd [((1, 1), none)]] := by decide
 
 end Consumer
+
+/-! #### the two worker models composed: answered `Ok` ⇒ a state from a fetch started after the request is published -/
+section Composed
+open ScyllaVerif.C19Whole ScyllaVerif.ClusterConsumer ScyllaVerif.MetaUpdate ScyllaVerif.RefreshFlow
+
+private structure WInv (w : Whole) : Prop where
+  ti : TimeInv w.t
+  clk : w.t.fetchStart ≤ w.t.clock
+  servedLe : ∀ p ∈ w.t.served, p.2 ≤ w.t.fetchStart
+  slotLe : ∀ a, w.slotFull = some a → a ≤ w.t.fetchStart
+  takenLe : ∀ a, w.takenFull = some a → a ≤ w.t.fetchStart
+  pubLe : ∀ a, w.publishedFull = some a → a ≤ w.t.fetchStart
+  ordPT : ∀ a b, w.publishedFull = some a → w.takenFull = some b → a ≤ b
+  ordPS : ∀ a b, w.publishedFull = some a → w.slotFull = some b → a ≤ b
+  ordTS : ∀ a b, w.takenFull = some a → w.slotFull = some b → a ≤ b
+  slotIds : ∀ id ∈ refreshIds w.t.flow.slot, ∃ tF tS, (id, tF) ∈ w.t.served ∧ w.slotFull = some tS ∧ tF ≤ tS
+  applIds : ∀ id ∈ w.t.flow.applying, ∃ tF tS, (id, tF) ∈ w.t.served ∧ w.takenFull = some tS ∧ tF ≤ tS
+  okIds : ∀ id ∈ w.t.flow.answeredOk, ∃ tF tP, (id, tF) ∈ w.t.served ∧ w.publishedFull = some tP ∧ tF ≤ tP
+  link : w.t.flow.busy = true → ∃ u, w.taken = some u ∧ w.t.flow.applying = refreshIds (some u)
+  consAns : w.cons.answered = w.t.flow.answeredOk
+
+private theorem winv_init (sub : Bool) (t0 : Nat) : WInv (winit sub t0) :=
+  ⟨timeInv_init, by simp [winit], by simp [winit], by simp [winit], by simp [winit], by simp [winit], by simp [winit],
+   by simp [winit], by simp [winit], by simp [winit, refreshIds], by simp [winit], by simp [winit], by simp [winit],
+   by simp [winit]⟩
+
+/-- A transition that changes neither the ghost stamps, the served log, the slot's / handler's / answered ids, the
+`busy` flag nor the consumer - only (possibly) moves the clock and `fetchStart` forward - keeps the invariant. -/
+private theorem winv_frame (w w' : Whole) (h : WInv w) (ti' : TimeInv w'.t)
+    (hfs : w.t.fetchStart ≤ w'.t.fetchStart) (hclk : w'.t.fetchStart ≤ w'.t.clock)
+    (hserved : ∀ p ∈ w'.t.served, p ∈ w.t.served ∨ p.2 = w.t.fetchStart)
+    (hmono : ∀ p ∈ w.t.served, p ∈ w'.t.served)
+    (hsf : w'.slotFull = w.slotFull) (htf : w'.takenFull = w.takenFull) (hpf : w'.publishedFull = w.publishedFull)
+    (hslot : ∀ id ∈ refreshIds w'.t.flow.slot, id ∈ refreshIds w.t.flow.slot)
+    (happl : ∀ id ∈ w'.t.flow.applying, id ∈ w.t.flow.applying)
+    (hok : w'.t.flow.answeredOk = w.t.flow.answeredOk)
+    (hlink : w'.t.flow.busy = true → ∃ u, w'.taken = some u ∧ w'.t.flow.applying = refreshIds (some u))
+    (hcons : w'.cons = w.cons) : WInv w' := by
+  obtain ⟨_, clk, servedLe, slotLe, takenLe, pubLe, ordPT, ordPS, ordTS, slotIds, applIds, okIds, link, consAns⟩ := h
+  refine ⟨ti', hclk, ?_, ?_, ?_, ?_, ?_, ?_, ?_, ?_, ?_, ?_, hlink, ?_⟩
+  · intro p hp
+    rcases hserved p hp with h1 | h1
+    · have := servedLe p h1; omega
+    · omega
+  · intro a ha; rw [hsf] at ha; have := slotLe a ha; omega
+  · intro a ha; rw [htf] at ha; have := takenLe a ha; omega
+  · intro a ha; rw [hpf] at ha; have := pubLe a ha; omega
+  · intro a b ha hb; rw [hpf] at ha; rw [htf] at hb; exact ordPT a b ha hb
+  · intro a b ha hb; rw [hpf] at ha; rw [hsf] at hb; exact ordPS a b ha hb
+  · intro a b ha hb; rw [htf] at ha; rw [hsf] at hb; exact ordTS a b ha hb
+  · intro id hid; rw [hsf]
+    obtain ⟨tF, tS, h1, h2, h3⟩ := slotIds id (hslot id hid)
+    exact ⟨tF, tS, hmono _ h1, h2, h3⟩
+  · intro id hid; rw [htf]
+    obtain ⟨tF, tS, h1, h2, h3⟩ := applIds id (happl id hid)
+    exact ⟨tF, tS, hmono _ h1, h2, h3⟩
+  · intro id hid; rw [hok] at hid; rw [hpf]
+    obtain ⟨tF, tS, h1, h2, h3⟩ := okIds id hid
+    exact ⟨tF, tS, hmono _ h1, h2, h3⟩
+  · rw [hcons, hok]; exact consAns
+
+private theorem wstep_t (w : Whole) (e : Ev) : (wstep w e).t = tstep w.t e := by
+  cases e <;> simp only [wstep] <;> (try split) <;> (try split) <;> rfl
+
+private theorem winv_step (w : Whole) (e : Ev) (h : WInv w) : WInv (wstep w e) := by
+  have ti' : TimeInv (tstep w.t e) := timeInv_step w.t e h.ti
+  have hnf := h.ti.flowInv.nofetch
+  cases e with
+  | request =>
+    apply winv_frame w _ h (by rw [wstep_t]; exact ti')
+    · simp [wstep, tstep]
+    · have := h.clk; simp [wstep, tstep]; omega
+    · intro p hp; left; simpa [wstep, tstep] using hp
+    · intro p hp; simpa [wstep, tstep] using hp
+    · simp [wstep]
+    · simp [wstep]
+    · simp [wstep]
+    · intro id hid; simp only [wstep, tstep, RefreshFlow.step] at hid; split at hid <;> exact hid
+    · intro id hid; simp only [wstep, tstep, RefreshFlow.step] at hid; split at hid <;> exact hid
+    · simp only [wstep, tstep, RefreshFlow.step]; split <;> rfl
+    · intro hb
+      have : w.t.flow.busy = true := by
+        simp only [wstep, tstep, RefreshFlow.step] at hb; split at hb <;> exact hb
+      obtain ⟨u, h1, h2⟩ := h.link this
+      refine ⟨u, by simpa [wstep] using h1, ?_⟩
+      simp only [wstep, tstep, RefreshFlow.step]; split <;> exact h2
+    · simp [wstep]
+  | recvRequest =>
+    by_cases hen : (!w.t.flow.producerGone && !w.t.flow.fetching && !w.t.flow.waiting.isEmpty) = true
+    · have hen' := hen
+      simp only [Bool.and_eq_true, Bool.not_eq_true'] at hen'
+      obtain ⟨⟨hpg, hf⟩, hw⟩ := hen'
+      match hwl : w.t.flow.waiting with
+      | [] => simp [hwl] at hw
+      | r :: rest =>
+        apply winv_frame w _ h (by rw [wstep_t]; exact ti')
+        · have := h.clk; simp [wstep, tstep, hpg, hf, hwl]; omega
+        · simp [wstep, tstep, hpg, hf, hwl]
+        · intro p hp; left; simpa [wstep, tstep, hpg, hf, hwl] using hp
+        · intro p hp; simpa [wstep, tstep, hpg, hf, hwl] using hp
+        · simp [wstep]
+        · simp [wstep]
+        · simp [wstep]
+        · intro id hid; simpa [wstep, tstep, RefreshFlow.step, hpg, hf, hwl] using hid
+        · intro id hid; simpa [wstep, tstep, RefreshFlow.step, hpg, hf, hwl] using hid
+        · simp [wstep, tstep, RefreshFlow.step, hpg, hf, hwl]
+        · intro hb
+          have : w.t.flow.busy = true := by simpa [wstep, tstep, RefreshFlow.step, hpg, hf, hwl] using hb
+          obtain ⟨u, h1, h2⟩ := h.link this
+          exact ⟨u, by simpa [wstep] using h1, by simpa [wstep, tstep, RefreshFlow.step, hpg, hf, hwl] using h2⟩
+        · simp [wstep]
+    · have hst : RefreshFlow.step w.t.flow .recvRequest = w.t.flow := by
+        simp only [RefreshFlow.step]
+        split
+        · rfl
+        · rename_i hc
+          cases hwl : w.t.flow.waiting with
+          | nil => rfl
+          | cons r rest => simp [hwl] at hen hc; simp [hc] at hen
+      have : wstep w .recvRequest = w := by
+        simp only [wstep, tstep, hen, hst]; rfl
+      rw [this]; exact h
+  | periodicFetch =>
+    by_cases hen : (!w.t.flow.producerGone && !w.t.flow.fetching) = true
+    · have hen' := hen
+      simp only [Bool.and_eq_true, Bool.not_eq_true'] at hen'
+      obtain ⟨hpg, hf⟩ := hen'
+      apply winv_frame w _ h (by rw [wstep_t]; exact ti')
+      · have := h.clk; simp [wstep, tstep, hpg, hf]; omega
+      · simp [wstep, tstep, hpg, hf]
+      · intro p hp; left; simpa [wstep, tstep, hpg, hf] using hp
+      · intro p hp; simpa [wstep, tstep, hpg, hf] using hp
+      · simp [wstep]
+      · simp [wstep]
+      · simp [wstep]
+      · intro id hid; simpa [wstep, tstep, RefreshFlow.step, hpg, hf] using hid
+      · intro id hid; simpa [wstep, tstep, RefreshFlow.step, hpg, hf] using hid
+      · simp [wstep, tstep, RefreshFlow.step, hpg, hf]
+      · intro hb
+        have : w.t.flow.busy = true := by simpa [wstep, tstep, RefreshFlow.step, hpg, hf] using hb
+        obtain ⟨u, h1, h2⟩ := h.link this
+        exact ⟨u, by simpa [wstep] using h1, by simpa [wstep, tstep, RefreshFlow.step, hpg, hf] using h2⟩
+      · simp [wstep]
+    · have hst : RefreshFlow.step w.t.flow .periodicFetch = w.t.flow := by
+        simp only [RefreshFlow.step]
+        split
+        · rfl
+        · rename_i hc; simp at hc hen; simp [hc] at hen
+      have : wstep w .periodicFetch = w := by simp only [wstep, tstep, hen, hst]; rfl
+      rw [this]; exact h
+  | fetchErrOnCc =>
+    have : wstep w .fetchErrOnCc = w := by simp only [wstep, tstep, RefreshFlow.step]
+    rw [this]; exact h
+  | fetchErrNoCc =>
+    by_cases hen : (!w.t.flow.producerGone && w.t.flow.fetching) = true
+    · have hen' := hen
+      simp only [Bool.and_eq_true, Bool.not_eq_true'] at hen'
+      obtain ⟨hpg, hf⟩ := hen'
+      apply winv_frame w _ h (by rw [wstep_t]; exact ti')
+      · simp [wstep, tstep, hpg, hf]
+      · have := h.clk; simpa [wstep, tstep, hpg, hf] using this
+      · intro p hp
+        simp only [wstep, tstep, hpg, hf, Bool.not_false, Bool.and_self, if_true, List.mem_append, List.mem_map] at hp
+        rcases hp with hp | ⟨r, _, rfl⟩
+        · exact Or.inl hp
+        · exact Or.inr rfl
+      · intro p hp; simp [wstep, tstep, hpg, hf]; exact Or.inl hp
+      · simp [wstep]
+      · simp [wstep]
+      · simp [wstep]
+      · intro id hid; simpa [wstep, tstep, RefreshFlow.step, hpg, hf] using hid
+      · intro id hid; simpa [wstep, tstep, RefreshFlow.step, hpg, hf] using hid
+      · simp [wstep, tstep, RefreshFlow.step, hpg, hf]
+      · intro hb
+        have : w.t.flow.busy = true := by simpa [wstep, tstep, RefreshFlow.step, hpg, hf] using hb
+        obtain ⟨u, h1, h2⟩ := h.link this
+        exact ⟨u, by simpa [wstep] using h1, by simpa [wstep, tstep, RefreshFlow.step, hpg, hf] using h2⟩
+      · simp [wstep]
+    · have hst : RefreshFlow.step w.t.flow .fetchErrNoCc = w.t.flow := by
+        simp only [RefreshFlow.step]
+        split
+        · rfl
+        · rename_i hc; simp at hc hen; simp [hc] at hen
+      have : wstep w .fetchErrNoCc = w := by simp only [wstep, tstep, hen, hst]; rfl
+      rw [this]; exact h
+  | merge op =>
+    obtain ⟨s1, s2, s3, s4, s5, s6⟩ := stopProducer_fields w.t.flow
+    have hbusy : (RefreshFlow.step w.t.flow (.merge op)).busy = w.t.flow.busy := by
+      simp only [RefreshFlow.step, stopProducer]; split <;> (try split) <;> (try split) <;> rfl
+    apply winv_frame w _ h (by rw [wstep_t]; exact ti')
+    · simp [wstep, tstep]
+    · have := h.clk; simpa [wstep, tstep] using this
+    · intro p hp; left; simpa [wstep, tstep] using hp
+    · intro p hp; simpa [wstep, tstep] using hp
+    · simp [wstep]
+    · simp [wstep]
+    · simp [wstep]
+    · intro id hid
+      simp only [wstep, tstep, RefreshFlow.step] at hid
+      split at hid
+      · exact hid
+      · split at hid
+        · exact s6 id hid
+        · simpa [refreshIds_apply_strip] using hid
+    · intro id hid
+      simp only [wstep, tstep, RefreshFlow.step] at hid
+      split at hid
+      · exact hid
+      · split at hid
+        · rw [s5] at hid; exact hid
+        · exact hid
+    · simp only [wstep, tstep, RefreshFlow.step]; split <;> (try split) <;> simp [s3]
+    · intro hb
+      have : w.t.flow.busy = true := by simpa [wstep, tstep, hbusy] using hb
+      obtain ⟨u, h1, h2⟩ := h.link this
+      refine ⟨u, by simpa [wstep] using h1, ?_⟩
+      simp only [wstep, tstep, RefreshFlow.step]; split <;> (try split) <;> simp [s5, h2]
+    · simp [wstep]
+  | mergeEstab op =>
+    apply winv_frame w _ h (by rw [wstep_t]; exact ti')
+    · simp [wstep, tstep]
+    · have := h.clk; simpa [wstep, tstep] using this
+    · intro p hp; left; simpa [wstep, tstep] using hp
+    · intro p hp; simpa [wstep, tstep] using hp
+    · simp [wstep]
+    · simp [wstep]
+    · simp [wstep]
+    · intro id hid
+      simp only [wstep, tstep, RefreshFlow.step] at hid
+      split at hid
+      · exact hid
+      · simpa [refreshIds_apply_strip] using hid
+    · intro id hid
+      simp only [wstep, tstep, RefreshFlow.step] at hid
+      split at hid <;> exact hid
+    · simp only [wstep, tstep, RefreshFlow.step]; split <;> rfl
+    · intro hb
+      have : w.t.flow.busy = true := by
+        simp only [wstep, tstep, RefreshFlow.step] at hb; split at hb <;> exact hb
+      obtain ⟨u, h1, h2⟩ := h.link this
+      refine ⟨u, by simpa [wstep] using h1, ?_⟩
+      simp only [wstep, tstep, RefreshFlow.step]; split <;> exact h2
+    · simp [wstep]
+  | producerGone =>
+    obtain ⟨s1, s2, s3, s4, s5, s6⟩ := stopProducer_fields w.t.flow
+    have hbusy : (RefreshFlow.step w.t.flow .producerGone).busy = w.t.flow.busy := by
+      simp only [RefreshFlow.step, stopProducer]; split <;> (try split) <;> rfl
+    apply winv_frame w _ h (by rw [wstep_t]; exact ti')
+    · simp [wstep, tstep]
+    · have := h.clk; simpa [wstep, tstep] using this
+    · intro p hp; left; simpa [wstep, tstep] using hp
+    · intro p hp; simpa [wstep, tstep] using hp
+    · simp [wstep]
+    · simp [wstep]
+    · simp [wstep]
+    · intro id hid
+      simp only [wstep, tstep, RefreshFlow.step] at hid
+      split at hid
+      · exact hid
+      · exact s6 id hid
+    · intro id hid
+      simp only [wstep, tstep, RefreshFlow.step] at hid
+      split at hid
+      · exact hid
+      · rw [s5] at hid; exact hid
+    · simp only [wstep, tstep, RefreshFlow.step]; split <;> simp [s3]
+    · intro hb
+      have : w.t.flow.busy = true := by simpa [wstep, tstep, hbusy] using hb
+      obtain ⟨u, h1, h2⟩ := h.link this
+      refine ⟨u, by simpa [wstep] using h1, ?_⟩
+      simp only [wstep, tstep, RefreshFlow.step]; split <;> simp [s5, h2]
+    · simp [wstep]
+  | consumerGone =>
+    apply winv_frame w _ h (by rw [wstep_t]; exact ti')
+    · simp [wstep, tstep]
+    · have := h.clk; simpa [wstep, tstep] using this
+    · intro p hp; left; simpa [wstep, tstep] using hp
+    · intro p hp; simpa [wstep, tstep] using hp
+    · simp [wstep]
+    · simp [wstep]
+    · simp [wstep]
+    · intro id hid
+      simp only [wstep, tstep, RefreshFlow.step] at hid
+      split at hid
+      · exact hid
+      · split at hid
+        · simp [refreshIds_none] at hid
+        · exact hid
+    · intro id hid
+      simp only [wstep, tstep, RefreshFlow.step] at hid
+      split at hid
+      · exact hid
+      · split at hid <;> simp at hid
+    · simp only [wstep, tstep, RefreshFlow.step]; split <;> (try split) <;> rfl
+    · intro hb
+      simp only [wstep, tstep, RefreshFlow.step] at hb
+      split at hb
+      · obtain ⟨u, h1, h2⟩ := h.link hb
+        refine ⟨u, by simpa [wstep] using h1, ?_⟩
+        simp only [wstep, tstep, RefreshFlow.step]
+        split
+        · exact h2
+        · rename_i hc1 hc2; exact absurd hc1 hc2
+      · split at hb <;> simp at hb
+    · simp [wstep]
+  | fetchOk m =>
+    by_cases hen : (!w.t.flow.producerGone && w.t.flow.fetching) = true
+    · have hen' := hen
+      simp only [Bool.and_eq_true, Bool.not_eq_true'] at hen'
+      obtain ⟨hpg, hf⟩ := hen'
+      cases hcg : w.t.flow.consumerGone with
+      | false =>
+        obtain ⟨_, clk, servedLe, slotLe, takenLe, pubLe, ordPT, ordPS, ordTS, slotIds, applIds, okIds, link, consAns⟩ := h
+        have hfl : (wstep w (.fetchOk m)).t.flow =
+            { w.t.flow with slot := mergeMetadata w.t.flow.slot m w.t.flow.pending, pending := none, fetching := false } := by
+          simp [wstep, tstep, RefreshFlow.step, hpg, hf, hcg]
+        have hsv : (wstep w (.fetchOk m)).t.served =
+            w.t.served ++ w.t.flow.pending.toList.map (fun r => (r, w.t.fetchStart)) := by
+          simp [wstep, tstep, hpg, hf, hcg]
+        have hfs : (wstep w (.fetchOk m)).t.fetchStart = w.t.fetchStart := by simp [wstep, tstep, hpg, hf, hcg]
+        have hck : (wstep w (.fetchOk m)).t.clock = w.t.clock := by simp [wstep, tstep, hpg, hf, hcg]
+        have hsf : (wstep w (.fetchOk m)).slotFull = some w.t.fetchStart := by simp [wstep, hpg, hf, hcg]
+        have htf : (wstep w (.fetchOk m)).takenFull = w.takenFull := by simp [wstep, hpg, hf, hcg]
+        have hpf : (wstep w (.fetchOk m)).publishedFull = w.publishedFull := by simp [wstep, hpg, hf, hcg]
+        have htk : (wstep w (.fetchOk m)).taken = w.taken := by simp [wstep, hpg, hf, hcg]
+        have hcs : (wstep w (.fetchOk m)).cons = w.cons := by simp [wstep, hpg, hf, hcg]
+        refine ⟨by rw [wstep_t]; exact ti', by rw [hfs, hck]; exact clk, ?_, ?_, ?_, ?_, ?_, ?_, ?_, ?_, ?_, ?_, ?_, ?_⟩
+        · intro p hp
+          rw [hsv, hfs] at *
+          rcases List.mem_append.mp hp with h1 | h1
+          · exact servedLe p h1
+          · obtain ⟨r, _, rfl⟩ := List.mem_map.mp h1; exact Nat.le_refl _
+        · intro a ha; rw [hsf] at ha; rw [hfs]; simp at ha; omega
+        · intro a ha; rw [htf] at ha; rw [hfs]; exact takenLe a ha
+        · intro a ha; rw [hpf] at ha; rw [hfs]; exact pubLe a ha
+        · intro a b ha hb; rw [hpf] at ha; rw [htf] at hb; exact ordPT a b ha hb
+        · intro a b ha hb; rw [hpf] at ha; rw [hsf] at hb; simp at hb; have := pubLe a ha; omega
+        · intro a b ha hb; rw [htf] at ha; rw [hsf] at hb; simp at hb; have := takenLe a ha; omega
+        · intro id hid
+          rw [hfl] at hid
+          simp only [refreshIds_mergeMetadata, List.mem_append, Option.mem_toList] at hid
+          rw [hsv, hsf]
+          rcases hid with h1 | h1
+          · obtain ⟨tF, tS, a1, a2, a3⟩ := slotIds id h1
+            exact ⟨tF, w.t.fetchStart, List.mem_append_left _ a1, rfl, by have := slotLe tS a2; omega⟩
+          · exact ⟨w.t.fetchStart, w.t.fetchStart,
+              List.mem_append_right _ (List.mem_map.mpr ⟨id, by simpa using h1, rfl⟩), rfl, Nat.le_refl _⟩
+        · intro id hid
+          rw [hfl] at hid
+          rw [hsv, htf]
+          obtain ⟨tF, tS, a1, a2, a3⟩ := applIds id hid
+          exact ⟨tF, tS, List.mem_append_left _ a1, a2, a3⟩
+        · intro id hid
+          rw [hfl] at hid
+          rw [hsv, hpf]
+          obtain ⟨tF, tS, a1, a2, a3⟩ := okIds id hid
+          exact ⟨tF, tS, List.mem_append_left _ a1, a2, a3⟩
+        · intro hb
+          rw [hfl] at hb
+          obtain ⟨u, h1, h2⟩ := link hb
+          exact ⟨u, by rw [htk]; exact h1, by rw [hfl]; exact h2⟩
+        · rw [hcs, hfl]; exact consAns
+      | true =>
+        obtain ⟨s1, s2, s3, s4, s5, s6⟩ := stopProducer_fields w.t.flow
+        have hfl : (wstep w (.fetchOk m)).t.flow = stopProducer w.t.flow := by
+          simp [wstep, tstep, RefreshFlow.step, hpg, hf, hcg]
+        have hbusy : (stopProducer w.t.flow).busy = w.t.flow.busy := by
+          simp only [stopProducer]; split <;> rfl
+        apply winv_frame w _ h (by rw [wstep_t]; exact ti')
+        · simp [wstep, tstep, hpg, hf, hcg]
+        · have := h.clk; simpa [wstep, tstep, hpg, hf, hcg] using this
+        · intro p hp; left; simpa [wstep, tstep, hpg, hf, hcg] using hp
+        · intro p hp; simpa [wstep, tstep, hpg, hf, hcg] using hp
+        · simp [wstep, hpg, hf, hcg]
+        · simp [wstep, hpg, hf, hcg]
+        · simp [wstep, hpg, hf, hcg]
+        · intro id hid; rw [hfl] at hid; exact s6 id hid
+        · intro id hid; rw [hfl, s5] at hid; exact hid
+        · rw [hfl, s3]
+        · intro hb
+          rw [hfl, hbusy] at hb
+          obtain ⟨u, h1, h2⟩ := h.link hb
+          exact ⟨u, by simpa [wstep, hpg, hf, hcg] using h1, by rw [hfl, s5]; exact h2⟩
+        · simp [wstep, hpg, hf, hcg]
+    · have hst : RefreshFlow.step w.t.flow (.fetchOk m) = w.t.flow := by
+        simp only [RefreshFlow.step]
+        split
+        · rfl
+        · rename_i hc; simp at hc hen; simp [hc] at hen
+      have hcond : (!w.t.flow.producerGone && w.t.flow.fetching && !w.t.flow.consumerGone) = false := by
+        simp at hen ⊢; intro a b; simp [hen a] at b
+      have : wstep w (.fetchOk m) = w := by simp only [wstep, tstep, hcond, hst]; rfl
+      rw [this]; exact h
+  | consumerTake =>
+    by_cases hen : (!w.t.flow.consumerGone && !w.t.flow.busy) = true
+    · have hen' := hen
+      simp only [Bool.and_eq_true, Bool.not_eq_true'] at hen'
+      obtain ⟨hcg, hb⟩ := hen'
+      cases hs : w.t.flow.slot with
+      | none =>
+        have hst : RefreshFlow.step w.t.flow .consumerTake = w.t.flow := by
+          simp [RefreshFlow.step, hcg, hb, hs]
+        have : wstep w .consumerTake = w := by simp only [wstep, tstep, hen, hs, hst]; rfl
+        rw [this]; exact h
+      | some u =>
+        obtain ⟨_, clk, servedLe, slotLe, takenLe, pubLe, ordPT, ordPS, ordTS, slotIds, applIds, okIds, link, consAns⟩ := h
+        have hfl : (wstep w .consumerTake).t.flow =
+            { w.t.flow with slot := none, applying := refreshIds (some u), busy := true } := by
+          simp [wstep, tstep, RefreshFlow.step, hcg, hb, hs]
+        have hsv : (wstep w .consumerTake).t.served = w.t.served := by simp [wstep, tstep, hcg, hb, hs]
+        have hfs : (wstep w .consumerTake).t.fetchStart = w.t.fetchStart := by simp [wstep, tstep, hcg, hb, hs]
+        have hck : (wstep w .consumerTake).t.clock = w.t.clock := by simp [wstep, tstep, hcg, hb, hs]
+        have hsf : (wstep w .consumerTake).slotFull = none := by simp [wstep, hcg, hb, hs]
+        have htf : (wstep w .consumerTake).takenFull = w.slotFull := by simp [wstep, hcg, hb, hs]
+        have hpf : (wstep w .consumerTake).publishedFull = w.publishedFull := by simp [wstep, hcg, hb, hs]
+        have htk : (wstep w .consumerTake).taken = some u := by simp [wstep, hcg, hb, hs]
+        have hcs : (wstep w .consumerTake).cons = w.cons := by simp [wstep, hcg, hb, hs]
+        refine ⟨by rw [wstep_t]; exact ti', by rw [hfs, hck]; exact clk, ?_, ?_, ?_, ?_, ?_, ?_, ?_, ?_, ?_, ?_, ?_, ?_⟩
+        · intro p hp; rw [hsv] at hp; rw [hfs]; exact servedLe p hp
+        · intro a ha; rw [hsf] at ha; simp at ha
+        · intro a ha; rw [htf] at ha; rw [hfs]; exact slotLe a ha
+        · intro a ha; rw [hpf] at ha; rw [hfs]; exact pubLe a ha
+        · intro a b ha hb'; rw [hpf] at ha; rw [htf] at hb'; exact ordPS a b ha hb'
+        · intro a b ha hb'; rw [hsf] at hb'; simp at hb'
+        · intro a b ha hb'; rw [hsf] at hb'; simp at hb'
+        · intro id hid; rw [hfl] at hid; simp [refreshIds_none] at hid
+        · intro id hid
+          rw [hfl] at hid
+          rw [hsv, htf]
+          exact slotIds id (by rw [hs]; exact hid)
+        · intro id hid
+          rw [hfl] at hid
+          rw [hsv, hpf]
+          exact okIds id hid
+        · intro _; exact ⟨u, htk, by rw [hfl]⟩
+        · rw [hcs, hfl]; exact consAns
+    · have hst : RefreshFlow.step w.t.flow .consumerTake = w.t.flow := by
+        simp only [RefreshFlow.step]
+        split
+        · rfl
+        · rename_i hc; simp at hc hen; simp [hc] at hen
+      have : wstep w .consumerTake = w := by simp only [wstep, tstep, hen, hst]; rfl
+      rw [this]; exact h
+  | consumerFinish =>
+    by_cases hen : (!w.t.flow.consumerGone && w.t.flow.busy) = true
+    · have hen' := hen
+      simp only [Bool.and_eq_true, Bool.not_eq_true'] at hen'
+      obtain ⟨hcg, hb⟩ := hen'
+      obtain ⟨_, clk, servedLe, slotLe, takenLe, pubLe, ordPT, ordPS, ordTS, slotIds, applIds, okIds, link, consAns⟩ := h
+      obtain ⟨u, hu, happ⟩ := link hb
+      have hfl : (wstep w .consumerFinish).t.flow =
+          { w.t.flow with answeredOk := w.t.flow.answeredOk ++ w.t.flow.applying, applying := [], busy := false } := by
+        simp [wstep, tstep, RefreshFlow.step, hcg, hb]
+      have hsv : (wstep w .consumerFinish).t.served = w.t.served := by simp [wstep, tstep, hcg, hb]
+      have hfs : (wstep w .consumerFinish).t.fetchStart = w.t.fetchStart := by simp [wstep, tstep, hcg, hb]
+      have hck : (wstep w .consumerFinish).t.clock = w.t.clock := by simp [wstep, tstep, hcg, hb]
+      have hsf : (wstep w .consumerFinish).slotFull = w.slotFull := by simp [wstep, hcg, hb]
+      have htf : (wstep w .consumerFinish).takenFull = none := by simp [wstep, hcg, hb]
+      have hpf : (wstep w .consumerFinish).publishedFull =
+          (match w.takenFull with | some a => some a | none => w.publishedFull) := by
+        simp [wstep, hcg, hb]; cases w.takenFull <;> rfl
+      have hcs : (wstep w .consumerFinish).cons = consume w.cons u := by simp [wstep, hcg, hb, hu]
+      refine ⟨by rw [wstep_t]; exact ti', by rw [hfs, hck]; exact clk, ?_, ?_, ?_, ?_, ?_, ?_, ?_, ?_, ?_, ?_, ?_, ?_⟩
+      · intro p hp; rw [hsv] at hp; rw [hfs]; exact servedLe p hp
+      · intro a ha; rw [hsf] at ha; rw [hfs]; exact slotLe a ha
+      · intro a ha; rw [htf] at ha; simp at ha
+      · intro a ha
+        rw [hpf] at ha; rw [hfs]
+        cases htk : w.takenFull with
+        | none => rw [htk] at ha; exact pubLe a ha
+        | some b => rw [htk] at ha; simp at ha; subst ha; exact takenLe _ htk
+      · intro a b ha hb'; rw [htf] at hb'; simp at hb'
+      · intro a b ha hb'
+        rw [hpf] at ha; rw [hsf] at hb'
+        cases htk : w.takenFull with
+        | none => rw [htk] at ha; exact ordPS a b ha hb'
+        | some c => rw [htk] at ha; simp at ha; subst ha; exact ordTS _ b htk hb'
+      · intro a b ha hb'; rw [htf] at ha; simp at ha
+      · intro id hid; rw [hfl] at hid; rw [hsv, hsf]; exact slotIds id hid
+      · intro id hid; rw [hfl] at hid; simp at hid
+      · intro id hid
+        rw [hfl] at hid
+        simp only [List.mem_append] at hid
+        rw [hsv, hpf]
+        rcases hid with h1 | h1
+        · obtain ⟨tF, tP, a1, a2, a3⟩ := okIds id h1
+          cases htk : w.takenFull with
+          | none => exact ⟨tF, tP, a1, by simpa using a2, a3⟩
+          | some c => exact ⟨tF, c, a1, rfl, by have := ordPT tP c a2 htk; omega⟩
+        · obtain ⟨tF, tS, a1, a2, a3⟩ := applIds id h1
+          exact ⟨tF, tS, a1, by rw [a2], a3⟩
+      · intro hb'; rw [hfl] at hb'; simp at hb'
+      · rw [hcs, hfl, consume_answers_every_reply, consAns, happ]
+    · have hst : RefreshFlow.step w.t.flow .consumerFinish = w.t.flow := by
+        simp only [RefreshFlow.step]
+        split
+        · rfl
+        · rename_i hc; simp at hc hen; simp [hc] at hen
+      have : wstep w .consumerFinish = w := by simp only [wstep, tstep, hen, hst]; rfl
+      rw [this]; exact h
+
+private theorem winv_run (sub : Bool) (t0 : Nat) (evs : List Ev) : WInv (wrun (winit sub t0) evs) := by
+  have : ∀ (evs : List Ev) (w : Whole), WInv w → WInv (wrun w evs) := by
+    intro evs
+    induction evs with
+    | nil => intro w h; exact h
+    | cons e rest ih => intro w h; exact ih _ (winv_step w e h)
+  exact this evs _ (winv_init sub t0)
+
+/-- The composed run is the (ghost-timed) request flow with the consumer model riding on it. -/
+theorem composed_run_projects (sub : Bool) (t0 : Nat) (evs : List Ev) :
+    (wrun (winit sub t0) evs).t = trun tinit evs := by
+  have : ∀ (evs : List Ev) (w : Whole), (wrun w evs).t = trun w.t evs := by
+    intro evs
+    induction evs with
+    | nil => intro w; rfl
+    | cons e rest ih =>
+      intro w
+      show (wrun (wstep w e) rest).t = trun (tstep w.t e) rest
+      rw [ih, wstep_t]
+  exact this evs _
+
+/-- THE TWO WORKER MODELS COMPOSED. For every interleaving of requests, producer steps, consumer steps and shutdowns:
+when a refresh request has been answered `Ok`, the consumer has PUBLISHED a cluster state built from the metadata of a
+full fetch that started no earlier than the fetch that served the request - which itself started strictly after the
+request was made. (`publishedFull` = start time of the newest full fetch whose metadata `apply_metadata_update` has
+published; later partial fetches may have refined that state further, `published_follows_latest_topology`.) So
+`Cluster::refresh_metadata` returning `Ok` means: a state at least as fresh as a fetch begun after the call is visible. -/
+theorem answered_ok_sees_fresh_published_state (sub : Bool) (t0 : Nat) (evs : List Ev) (id : Nat) :
+    let w := wrun (winit sub t0) evs
+    id ∈ w.t.flow.answeredOk →
+      ∃ tIssued tFetch tPub, (id, tIssued) ∈ w.t.issued ∧ (id, tFetch) ∈ w.t.served ∧
+        w.publishedFull = some tPub ∧ tIssued < tFetch ∧ tFetch ≤ tPub := by
+  intro w hid
+  have inv : WInv w := winv_run sub t0 evs
+  clear_value w
+  obtain ⟨tF, tP, h1, h2, h3⟩ := inv.okIds id hid
+  obtain ⟨tI, htI⟩ := inv.ti.all id (inv.ti.servedIds _ h1)
+  exact ⟨tI, tF, tP, htI, h1, h2, inv.ti.servedAfter _ h1 tI htI, h3⟩
+
+/-- In the composed run the consumer model answers exactly the requests the flow model counts as answered `Ok`. -/
+theorem composed_models_agree_on_answers (sub : Bool) (t0 : Nat) (evs : List Ev) :
+    (wrun (winit sub t0) evs).cons.answered = (wrun (winit sub t0) evs).t.flow.answeredOk :=
+  (winv_run sub t0 evs).consAns
+
+-- non-vacuity: request 0 starts fetch A (start time 1); request 1, made while A is in flight, is served by fetch B
+-- (start time 3). When request 0 is answered the published state comes from A (1); when request 1 is, from B (3).
+example :
+    let w := wrun (winit false 0) [.request, .recvRequest, .request, .fetchOk { peers := 7 }, .consumerTake,
+      .consumerFinish]
+    w.t.flow.answeredOk = [0] ∧ w.publishedFull = some 1 ∧ w.cons.published = 7 ∧ w.t.issued = [(0, 0), (1, 2)] := by decide
+example :
+    let w := wrun (winit false 0) [.request, .recvRequest, .request, .fetchOk { peers := 7 }, .recvRequest,
+      .fetchOk { peers := 8 }, .merge (.topology 9), .consumerTake, .consumerFinish]
+    w.t.flow.answeredOk = [0, 1] ∧ w.publishedFull = some 3 ∧ w.cons.published = 9 ∧ w.t.served = [(0, 1), (1, 3)] := by
+  decide
+
+end Composed
+
+/-! ### the wait on the connection pools inside `apply_metadata_update` terminates -/
+section Pools
+open ScyllaVerif.C19PoolInit ScyllaVerif.MetaUpdate ScyllaVerif.ClusterConsumer
+
+private structure PInv (p : Pool) : Prop where
+  init : p.shared = .initializing → p.conns = 0 ∧ (p.started = false ∨ p.inFlight > 0)
+  created : ∀ e, p.waiter = .created e → e ≤ p.epoch
+  awaiting : ∀ e, p.waiter = .awaiting e → (p.shared = .initializing ∧ e ≤ p.epoch) ∨ e < p.epoch
+
+private theorem pinv_updateShared (p : Pool) (hc : ∀ e, p.waiter = .created e → e ≤ p.epoch)
+    (ha : ∀ e, p.waiter = .awaiting e → e ≤ p.epoch) : PInv (updateShared p) := by
+  refine ⟨?_, ?_, ?_⟩
+  · intro hs; simp [updateShared] at hs; split at hs <;> simp at hs
+  · intro e he; simp [updateShared] at he ⊢; have := hc e he; omega
+  · intro e he; simp [updateShared] at he ⊢; right; have := ha e he; omega
+
+private theorem awaiting_le (p : Pool) (h : PInv p) (e : Nat) (he : p.waiter = .awaiting e) : e ≤ p.epoch := by
+  rcases h.awaiting e he with ⟨_, h1⟩ | h1 <;> omega
+
+private theorem pinv_step (p : Pool) (ev : C19PoolInit.Ev) (h : PInv p) : PInv (C19PoolInit.step p ev) := by
+  have hc := h.created
+  have ha := awaiting_le p h
+  cases ev with
+  | startFilling k =>
+    simp only [C19PoolInit.step]
+    split
+    · exact h
+    · split
+      · exact ⟨by intro _; simp_all [h.init], by simpa using hc, by simpa using h.awaiting⟩
+      · rename_i h1 h2
+        refine ⟨?_, by simpa using hc, by simpa using h.awaiting⟩
+        intro hs
+        have := (h.init hs).1
+        exact absurd this h2
+  | connFail =>
+    simp only [C19PoolInit.step]
+    split
+    · exact h
+    · unfold reportIfDrained
+      split
+      · exact pinv_updateShared _ (by simpa using hc) (by simpa using ha)
+      · rename_i h1 h2
+        refine ⟨?_, by simpa using hc, by simpa using h.awaiting⟩
+        intro hs
+        have := h.init hs
+        simp only [] at hs h2 ⊢
+        refine ⟨this.1, ?_⟩
+        rcases this.2 with h3 | h3
+        · exact Or.inl h3
+        · right
+          simp only [not_and] at h2
+          have : ¬ (p.inFlight - 1 = 0) := fun hz => h2 hz this.1
+          omega
+  | shardPortFail => exact h
+  | connOkNeedsKeyspace => exact h
+  | keyspaceFail =>
+    simp only [C19PoolInit.step]
+    split
+    · exact h
+    · unfold reportIfDrained
+      split
+      · exact pinv_updateShared _ (by simpa using hc) (by simpa using ha)
+      · rename_i h1 h2
+        refine ⟨?_, by simpa using hc, by simpa using h.awaiting⟩
+        intro hs
+        have := h.init hs
+        simp only [] at hs h2 ⊢
+        refine ⟨this.1, ?_⟩
+        rcases this.2 with h3 | h3
+        · exact Or.inl h3
+        · right
+          simp only [not_and] at h2
+          have : ¬ (p.inFlight - 1 = 0) := fun hz => h2 hz this.1
+          omega
+  | connOkAccept =>
+    simp only [C19PoolInit.step]
+    split
+    · exact h
+    · exact pinv_updateShared _ (by simpa using hc) (by simpa using ha)
+  | connOkExcess =>
+    simp only [C19PoolInit.step]
+    split
+    · exact h
+    · rename_i h1
+      refine ⟨?_, by simpa using hc, by simpa using h.awaiting⟩
+      intro hs
+      have := (h.init hs).1
+      simp only [not_or] at h1
+      exact absurd this h1.2
+  | connDies =>
+    simp only [C19PoolInit.step]
+    split
+    · exact h
+    · exact pinv_updateShared _ (by simpa using hc) (by simpa using ha)
+  | waitCall =>
+    simp only [C19PoolInit.step]
+    split
+    · exact ⟨by simpa using h.init, by intro e he; simp at he; subst he; simp, by intro e he; simp at he⟩
+    · exact h
+  | waitLoad =>
+    simp only [C19PoolInit.step]
+    split
+    · rename_i e he
+      split
+      · rename_i hs
+        exact ⟨by simpa using h.init, by intro e' he'; simp at he', by intro e' he'; simp at he'; subst he'; exact Or.inl ⟨hs, hc e he⟩⟩
+      · exact ⟨by simpa using h.init, by intro e' he'; simp at he', by intro e' he'; simp at he'⟩
+    · exact h
+  | waitPoll =>
+    simp only [C19PoolInit.step]
+    split
+    · split
+      · exact ⟨by simpa using h.init, by intro e' he'; simp at he', by intro e' he'; simp at he'⟩
+      · exact h
+    · exact h
+
+private theorem pinv_run (evs : List C19PoolInit.Ev) : PInv (C19PoolInit.run {} evs) := by
+  have : ∀ (evs : List C19PoolInit.Ev) (p : Pool), PInv p → PInv (C19PoolInit.run p evs) := by
+    intro evs
+    induction evs with
+    | nil => intro p h; exact h
+    | cons e rest ih => intro p h; exact ih _ (pinv_step p e h)
+  exact this evs {} ⟨by simp, by simp, by simp⟩
+
+/-- Every pool leaves `Initializing` once its first fill has nothing left in flight, WHATEVER the outcome of the
+attempts: for every history of refiller events (attempt fails on the regular port, fails on the shard-aware port and is
+retried, succeeds, succeeds after setting the keyspace, the keyspace cannot be set, a connection dies, refills)
+interleaved with a `wait_until_initialized` call - in every reachable state in which the refiller has started and no
+attempt / keyspace setting is under way, the published pool state is `Ready` or `Broken`, never `Initializing`. -/
+theorem pool_leaves_initializing (evs : List C19PoolInit.Ev) :
+    let p := C19PoolInit.run {} evs
+    p.started = true → p.inFlight = 0 → p.shared ≠ .initializing := by
+  intro p hs hf hi
+  have inv : PInv p := pinv_run evs
+  clear_value p
+  rcases (inv.init hi).2 with h | h
+  · rw [hs] at h; exact absurd h (by simp)
+  · omega
+
+/-- In particular the FIRST attempt of a brand-new pool decides: refused / handshake failure → `Broken`; accepted →
+`Ready`; keyspace cannot be set → `Broken` (with any number of shard-port retries / keyspace detours in between). -/
+theorem first_attempt_decides (k : Nat) (detours : List C19PoolInit.Ev)
+    (hd : ∀ e ∈ detours, e = .shardPortFail ∨ e = .connOkNeedsKeyspace) (last : C19PoolInit.Ev)
+    (hl : last = .connFail ∨ last = .keyspaceFail ∨ last = .connOkAccept) :
+    let p := C19PoolInit.run {} (.startFilling k :: detours ++ [last])
+    p.shared ≠ .initializing ∧ p.epoch = 1 ∧
+      (p.shared = .ready ↔ last = .connOkAccept) := by
+  have hdet : ∀ (detours : List C19PoolInit.Ev), (∀ e ∈ detours, e = .shardPortFail ∨ e = .connOkNeedsKeyspace) →
+      ∀ p : Pool, C19PoolInit.run p detours = p := by
+    intro detours
+    induction detours with
+    | nil => intro _ p; rfl
+    | cons e rest ih =>
+      intro h p
+      have he := h e (List.mem_cons_self)
+      have : C19PoolInit.step p e = p := by rcases he with rfl | rfl <;> rfl
+      show C19PoolInit.run (C19PoolInit.step p e) rest = p
+      rw [this]; exact ih (fun e' he' => h e' (List.mem_cons_of_mem _ he')) p
+  have hrun : C19PoolInit.run {} (.startFilling k :: detours ++ [last]) =
+      C19PoolInit.step (C19PoolInit.step {} (.startFilling k)) last := by
+    show C19PoolInit.run (C19PoolInit.step {} (.startFilling k)) (detours ++ [last]) = _
+    simp only [C19PoolInit.run, List.foldl_append]
+    have := hdet detours hd (C19PoolInit.step {} (.startFilling k))
+    simp only [C19PoolInit.run] at this
+    rw [this]; rfl
+  simp only []
+  rw [hrun]
+  rcases hl with rfl | rfl | rfl <;> simp [C19PoolInit.step, reportIfDrained, updateShared]
+
+/-- No lost wake-up for `wait_until_initialized`: in every reachable state, a call that is under way and whose pool is
+no longer `Initializing` can complete (it either has not loaded the state yet, or it was registered before the
+`notify_waiters()` that accompanied the change). -/
+theorem pool_waiter_never_stuck (evs : List C19PoolInit.Ev) :
+    let p := C19PoolInit.run {} evs
+    p.waiter ≠ .idle → p.shared ≠ .initializing → waiterCanFinish p = true := by
+  intro p hw hs
+  have inv : PInv p := pinv_run evs
+  clear_value p
+  cases hwt : p.waiter with
+  | idle => exact absurd hwt hw
+  | done => simp [waiterCanFinish, hwt]
+  | created e => simp [waiterCanFinish, hwt, hs]
+  | awaiting e =>
+    rcases inv.awaiting e hwt with ⟨h1, _⟩ | h1
+    · exact absurd h1 hs
+    · simp [waiterCanFinish, hwt, h1]
+
+/-- ... and then two steps of it (load, poll) complete it. -/
+theorem pool_wait_terminates (evs : List C19PoolInit.Ev) :
+    let p := C19PoolInit.run {} evs
+    p.started = true → p.inFlight = 0 → p.waiter ≠ .idle →
+      (C19PoolInit.run p [.waitLoad, .waitPoll]).waiter = .done := by
+  intro p hs hf hw
+  have hsh := pool_leaves_initializing evs hs hf
+  have hcan := pool_waiter_never_stuck evs hw hsh
+  have hsh' : p.shared ≠ .initializing := hsh
+  have hcan' : waiterCanFinish p = true := hcan
+  clear_value p
+  cases hwt : p.waiter with
+  | idle => exact absurd hwt hw
+  | done => simp [C19PoolInit.run, C19PoolInit.step, hwt]
+  | created e => simp [C19PoolInit.run, C19PoolInit.step, hwt, hsh']
+  | awaiting e =>
+    have : p.epoch > e := by simpa [waiterCanFinish, hwt] using hcan'
+    simp [C19PoolInit.run, C19PoolInit.step, hwt, this]
+
+/-- Hence `apply_metadata_update` is never parked for good at `wait_until_all_pools_are_initialized`: once the first
+fill of every pool of the new state has nothing left in flight - reachable or not, refused or not - the update is
+published and every reply channel answered, exactly as `consume` says. -/
+theorem consume_not_parked_on_pools (c : Consumer) (u : Update) (histories : List (List C19PoolInit.Ev))
+    (h : ∀ evs ∈ histories, (C19PoolInit.run {} evs).started = true ∧ (C19PoolInit.run {} evs).inFlight = 0) :
+    consumeWaiting c u (histories.map (C19PoolInit.run {})) = some (consume c u) := by
+  have hall : poolsInitialized (histories.map (C19PoolInit.run {})) = true := by
+    simp only [poolsInitialized, List.all_map, List.all_eq_true]
+    intro evs hevs
+    have := pool_leaves_initializing evs (h evs hevs).1 (h evs hevs).2
+    simpa using this
+  unfold consumeWaiting
+  cases peersTag (some u) <;> simp [hall]
+
+-- non-vacuity: a brand-new pool whose first attempt is refused (the shape of the seeded pool defect): Broken, and the
+-- waiter that parked before the refusal is released; a pool still connecting parks the handler.
+example :
+    let p := C19PoolInit.run {} [.waitCall, .startFilling 3, .waitLoad, .connFail]
+    p.shared = .broken ∧ p.waiter = .awaiting 0 ∧ waiterCanFinish p = true ∧
+      (C19PoolInit.run p [.waitPoll]).waiter = .done := by decide
+example :
+    consumeWaiting { hasSubscriber := false, published := 0 } { changes := some (.part { peers := some 5 }) }
+      [C19PoolInit.run {} [.startFilling 1]] = none ∧
+    (consumeWaiting { hasSubscriber := false, published := 0 } { changes := some (.part { peers := some 5 }) }
+      [C19PoolInit.run {} [.startFilling 1, .connFail]]).map (·.published) = some 5 := by decide
+
+end Pools
 
 end ScyllaVerif.Props.C19
